@@ -14,7 +14,7 @@ import (
 
 func init() {
 	Describe("C15", &PropInfo{
-		Rule: "per grammar (tier-G families, random actions) a set of 8-14 distinct inputs (sentences incl. long, deeply nested ones, and non-sentences failing at various depths) and (history) a rapid-drawn sequence of 10-30 operations: re-init + parse on the single global parser (go, go -u, typescript) or, in the -o builds, parse on one of several contexts after ParserInit() or on a fresh MakeParserContext(), extra inits in between; (interleave, -o builds) 2-4 parses on distinct contexts whose token-by-token interleaving is a rapid-drawn schedule executed by the harness (each parse runs in its own goroutine and blocks in GetToken until the schedule lets it fetch its next token); (race) 8 contexts truly concurrent in a `go build -race` binary. Model: the result (verdict, reductions, value, tokens requested) of the same parse alone in a fresh process. Non-trivial = a history in which a rejected parse is followed by an accepted parse with more reductions, or an interleaving with >= 2 context switches inside each of two parses; distinct by grammar text + operation list",
+		Rule: "per grammar (tier-G families, random actions) a set of 8-14 distinct inputs (sentences incl. long, deeply nested ones, and non-sentences failing at various depths) and (history) a rapid-drawn sequence of 10-30 operations: re-init + parse on the single global parser (go, go -u, typescript) or, in the -o builds, parse on one of several contexts after ParserInit() or on a fresh MakeParserContext(), extra inits in between; (interleave, -o builds) 2-4 parses on distinct contexts whose token-by-token interleaving is a rapid-drawn schedule executed by the harness (each parse runs in its own goroutine and blocks in GetToken until the schedule lets it fetch its next token); (nested, Go variants) the action of the k-th reduction of one parse starts a whole other parse - on the global parser bracketed by PushContex()/PopContex() with ParserInit() in between, in -o builds on a fresh context - and both must behave as if alone; (race) 8 contexts truly concurrent in a `go build -race` binary. Model: the result (verdict, reductions, value, tokens requested) of the same parse alone in a fresh process. Non-trivial = a history in which a rejected parse is followed by an accepted parse with more reductions, or an interleaving with >= 2 context switches inside each of two parses; distinct by grammar text + operation list",
 		Assumptions: []string{
 			"every parse on a re-used parser/context is preceded by ParserInit()/initialize(), as the property requires",
 			"interleavings are owned by the harness at token granularity (deterministic, replayable); only the race unit depends on the OS scheduler: a data race it reports is real, its silence is weak evidence",
@@ -63,11 +63,21 @@ type InterOp struct {
 	Schedule []int `json:"schedule"`
 }
 
+// NestOp: while parsing Inputs[Out], the action of the At-th reduction starts a
+// whole parse of Inputs[In] (global parser: PushContex/ParserInit/Parser/
+// PopContex; -o: on a fresh context).
+type NestOp struct {
+	Out int `json:"outer"`
+	At  int `json:"at_reduction"`
+	In  int `json:"inner"`
+}
+
 type C15Case struct {
 	Spec    *spec.Spec `json:"spec"`
 	Inputs  [][]int    `json:"inputs"`
 	History []HOp      `json:"history"`
 	Inter   []InterOp  `json:"interleavings"`
+	Nested  []NestOp   `json:"nested,omitempty"`
 	Race    bool       `json:"race,omitempty"`
 	Text    string     `json:"grammar_text"`
 }
@@ -133,7 +143,19 @@ func drawC15(t *rapid.T) *C15Case {
 		}
 		cs.Inter = append(cs.Inter, io)
 	}
+	nn := rapid.IntRange(2, 6).Draw(t, "nnest")
+	for i := 0; i < nn; i++ {
+		cs.Nested = append(cs.Nested, NestOp{Out: rapid.IntRange(0, ni-1).Draw(t, "nout"), At: rapid.IntRange(1, 12).Draw(t, "nat"), In: rapid.IntRange(0, ni-1).Draw(t, "nin")})
+	}
 	return cs
+}
+
+func c15NestOps(cs *C15Case) []gen.Op {
+	var ops []gen.Op
+	for _, n := range cs.Nested {
+		ops = append(ops, gen.Op{Op: "parse", Init: true, Ctx: 0, In: cs.Inputs[n.Out], NestAt: n.At, NestIn: cs.Inputs[n.In]})
+	}
+	return ops
 }
 
 func c15Ops(cs *C15Case, v gen.Variant) (runs [][]gen.Op, histRun int, interRun int) {
@@ -165,6 +187,10 @@ func c15Ops(cs *C15Case, v gen.Variant) (runs [][]gen.Op, histRun int, interRun 
 		}
 		interRun = len(runs)
 		runs = append(runs, ops)
+	}
+	if v.IsGo() && len(cs.Nested) > 0 {
+		// always the last run
+		runs = append(runs, c15NestOps(cs))
 	}
 	return
 }
@@ -321,6 +347,38 @@ func runC15(c *Ctx, cases []*C15Case, withRace bool) bool {
 					}
 				}
 				c.Class("interleavings-ok:" + v.Name)
+			}
+			// nested runs
+			if v.IsGo() && len(cs.Nested) > 0 {
+				nl := r.RunLines[len(r.RunLines)-1]
+				if len(nl) != len(cs.Nested) {
+					c.Infra("variant %s: nested run printed %d lines for %d ops: %s", v.Name, len(nl), len(cs.Nested), clip(r.RunErr+r.Stderr, 300))
+					return true
+				}
+				for k, n := range cs.Nested {
+					var got gen.Res
+					if err := json.Unmarshal(nl[k], &got); err != nil {
+						c.Infra("variant %s: unreadable result line %s", v.Name, clip(string(nl[k]), 200))
+						return true
+					}
+					c.Eval(1)
+					how := "PushContex(); ParserInit(); Parser(inner); PopContex()"
+					if v.Object() {
+						how = "MakeParserContext().Parser(inner)"
+					}
+					if d := sameRes(&got, model[n.Out], true); d != "" {
+						return fail("variant %s: parse of %s during which the action of reduction %d runs a nested parse of %s (%s) differs from the same parse alone: %s",
+							v.Name, inputNames(cs.Spec, cs.Inputs[n.Out]), n.At, inputNames(cs.Spec, cs.Inputs[n.In]), how, d)
+					}
+					if got.Nested != nil {
+						if d := sameRes(got.Nested, model[n.In], true); d != "" {
+							return fail("variant %s: nested parse of %s (%s), started by the action of reduction %d of the parse of %s, differs from the same parse alone: %s",
+								v.Name, inputNames(cs.Spec, cs.Inputs[n.In]), how, n.At, inputNames(cs.Spec, cs.Inputs[n.Out]), d)
+						}
+						c.Nontrivial(Hash(cs.Text, fmt.Sprint(n), v.Name, "nested"))
+						c.Class("nested-run-ok:" + v.Name)
+					}
+				}
 			}
 		}
 		// race run
